@@ -6,7 +6,7 @@ export GOPROXY=off GOFLAGS=-mod=mod
 OUT=$(mktemp -d /tmp/verif-baseline.XXXXXX)
 trap 'rm -rf "$OUT"' EXIT
 for m in . ./proto; do
-  (cd /repo/$m && go test -mod=mod -json -vet=off -count=1 -timeout 25m ./... ) >> "$OUT/gotest.json" 2>>"$OUT/stderr.log"
+  (cd ${VERIF_REPO:-/repo}/$m && go test -mod=mod -json -vet=off -count=1 -timeout 25m ./... ) >> "$OUT/gotest.json" 2>>"$OUT/stderr.log"
 done
 python3 - "$OUT/gotest.json" <<'PY'
 import json,sys
